@@ -121,6 +121,10 @@ def create(st: State, key: str, sp: dict) -> None:
 def vanish(st: State, key: str) -> None:
     for d in (st.spec, st.val, st.override, st.inherits):
         d.pop(key, None)
+    if key.startswith('top:') and st.inherits.get('sub:' + key[4:]):
+        # an option inherits from the parent it was created under; when that parent vanishes it has its own value
+        # (and does not start to inherit from a parent that is declared again later)
+        st.inherits['sub:' + key[4:]] = False
 
 
 def sync(st: State, files: T.Dict[str, T.Dict[str, dict]]) -> State:
